@@ -414,6 +414,21 @@ def conversion_ladder(ctx):
                     continue
                 want = apply_ref(Mref, np.c_[p, 2 * p, -p]) if rname.endswith('3xN') else apply_ref(Mref, p)
                 check_value(ctx, cid, rname.split('/')[0], Pm, r, want, scale(Mref, p) * (2 if rname.endswith('3xN') else 1))
+    # the documented list-of-pose-objects form of the quaternion constructor (SO3 and SE3 elements, single and several)
+    Ra, Rb = ref.rotx(0.7) @ ref.roty(-0.4), ref.rotz(1.1) @ ref.rotx(0.3)
+    for kind, mk in (('SO3', lambda R: sm.SO3(R.copy())), ('SE3', lambda R: sm.SE3(ref.rt(R, (1.0, -2.0, 0.5))))):
+        for nm_, Rs in (('1', [Ra]), ('2', [Ra, Rb]), ('3', [Rb, Ra, Rb])):
+            cid = 'C06/ladder/UnitQuaternion([%s x %s])' % (kind, nm_)
+            if not ctx.want(cid):
+                continue
+            ctx.case(cid, key=cid)
+            Pm = dict(cls='UnitQuaternion', law='ladder', form='list-of-' + kind)
+            ok, r = call(lambda: sm.UnitQuaternion([mk(R) for R in Rs]) * p.copy())
+            if not ok:
+                ctx.fail(cid, 'UnitQuaternion.mul', 'raises:' + type(r).__name__, Pm, '%r' % (r,))
+                continue
+            want = np.stack([R @ p for R in Rs], axis=1)
+            check_value(ctx, cid, 'UnitQuaternion.mul', Pm, np.asarray(r).reshape(3, -1) if np.asarray(r).size == want.size else r, want, 1.0)
     q0 = ref.r2q_ref(ref.rotx(0.7) @ ref.roty(-0.4) @ ref.rotz(0.9))
     R0 = ref.q2r(q0)
     for e in (1e-2, 1e-3, 3e-4, 1e-4, 1e-5, 1e-6, 1e-7):
